@@ -113,8 +113,8 @@ def _check_fs(case, ctx):
 # ---------------------------------------------------------------------------------------------
 def strategy(tier):
     mapping = _mapping()
-    ident = st.sampled_from(["foo", "Bar", "baz_1", "schema2", "x"])
-    asname = st.one_of(st.none(), st.none(), st.sampled_from(["s", "alias_a", "_p", "sch"]))
+    ident = st.sampled_from(["foo", "Bar", "baz_1", "schema2", "x", "café", "ñ_1"])      # (identifiers may be non-ASCII)
+    asname = st.one_of(st.none(), st.none(), st.sampled_from(["s", "alias_a", "_p", "sch", "é"]))
     odd_text = st.lists(st.one_of(st.sampled_from(ODD), st.sampled_from(["a", "b c", "1"])),
                         max_size=4).map("".join)
 
@@ -154,7 +154,8 @@ def strategy(tier):
                     continue
                 used.add(local)
                 names.append([n, a])
-        styles = ["line", "line", "paren"] + (["paren-multi", "backslash"] if allow_multiline else [])
+        styles = ["line", "line", "paren", "line-spaced"] + (["paren-multi", "backslash", "backslash-before-import"]
+                                                             if allow_multiline else [])
         style = "line" if names == "*" else draw(st.sampled_from(styles))
         comment = draw(st.one_of(st.none(), st.none(), odd_text))
         return ["from", module, level, names, style, comment]
@@ -211,6 +212,12 @@ def _render_from(s, nl, indent=""):
     items = [n if a is None else f"{n} as {a}" for n, a in names]
     if style == "line":
         return [indent + head + ", ".join(items) + _comment(comment)]
+    if style == "line-spaced":
+        # column-aligned / tab-separated spelling of the same statement
+        wide = "from   " + "." * level + (module or "") + " \t  import\t "
+        return [indent + wide + " ,  ".join(it.replace(" as ", "  as\t") for it in items) + _comment(comment)]
+    if style == "backslash-before-import":
+        return [indent + "from " + "." * level + (module or "") + " \\", indent + "    import " + ", ".join(items) + _comment(comment)]
     if style == "paren":
         return [indent + head + "(" + ", ".join(items) + ")" + _comment(comment)]
     if style == "paren-multi":
